@@ -42,7 +42,8 @@ CFG = {
         "harness": "c13",
         "n": {"quick": 300, "thorough": 8000},
         "timeout": {"quick": 900, "thorough": 14400},
-        "rule": "one case = one real noise session (init = handshake) followed by 6-40 poll-level ops; N generated cases: 30% "
+        "rule": "(a third of the reads use a ReadBuf that already holds 1..70000 bytes; 6+N/40 receive-buffer alignment cases; 10+N/40 "
+                "half-close cases: shutdown of one direction with peer data buffered / in flight / still to come.) One case = one real noise session (init = handshake) followed by 6-40 poll-level ops; N generated cases: 30% "
                 "random two-way traffic (write sizes 0..70000 incl. 65518/65519/65520, flushes, reads with caps 0..100000, "
                 "transport scripts of accepts 1..3/17..20/65535..65537/large with Pending), 15% fragments cut at "
                 "1,2,3,F-3..F+3,2F bytes around a frame of F bytes, 5% full-payload-buffer / maximal-frame scenarios, 10% "
